@@ -58,6 +58,9 @@ type Rules struct {
 	LabelFilterBeforeParserOnStreamLabels bool
 	// drop changes the label set but not the series identity
 	DropNoRekey bool
+	// a label filter placed after a parser stage is evaluated on the labels as a LATER drop stage (run by the
+	// same engine) leaves them: the drop rewrites the `labels` alias of the SELECT that already holds the WHERE
+	LabelFilterSeesLaterDrop bool
 }
 
 // Options of one evaluation.
@@ -508,6 +511,25 @@ func (s *Stage) apply(st *state, r Rules) (keep bool, err error) {
 	return false, ErrUnsupported
 }
 
+// filterSeeingLaterDrops: deviant rule LabelFilterSeesLaterDrop.
+func (q *LogQuery) filterSeeingLaterDrops(i int, st *state, opt Options) (bool, error) {
+	labels := CopyLabels(st.labels)
+	for j := i + 1; j < len(q.Stages); j++ {
+		if !opt.AllBefore && j >= opt.SplitAt {
+			break
+		}
+		if q.Stages[j].Kind != Drop {
+			continue
+		}
+		for _, d := range q.Stages[j].Drops {
+			if v, ok := labels[d.Name]; ok && (!d.HasValue || v == d.Value) {
+				delete(labels, d.Name)
+			}
+		}
+	}
+	return q.Stages[i].Filter.eval(labels, opt.rulesAt(i))
+}
+
 // run evaluates the selector on every arriving entry and returns the survivors in arrival order.
 func (q *LogQuery) run(streams []Stream, opt Options) (out []*state, abortIdx int, err error) {
 	match := make([]bool, len(streams))
@@ -526,7 +548,12 @@ func (q *LogQuery) run(streams []Stream, opt Options) (out []*state, abortIdx in
 			key: "stored:" + Canon(base)}
 		keep := true
 		for i := range q.Stages {
-			keep, err = q.Stages[i].apply(st, opt.rulesAt(i))
+			ri := opt.rulesAt(i)
+			if ri.LabelFilterSeesLaterDrop && q.Stages[i].Kind == LabelFilter && st.parsed {
+				keep, err = q.filterSeeingLaterDrops(i, st, opt)
+			} else {
+				keep, err = q.Stages[i].apply(st, ri)
+			}
 			if err != nil {
 				return nil, -1, err
 			}
